@@ -11,7 +11,7 @@ VAL = {'C': 4, 'N': 3, 'O': 2, 'S': 2, 'P': 3, 'F': 1, 'Cl': 1, 'Br': 1}
 SYM = {0: '.', 1: '', 2: '=', 3: '#', 4: '$', 1.5: ''}
 
 
-def rnd_mol(rng, n, aromatic_p=0.3, charged_p=0.1, pyrrole_p=0.0, biaryl_p=0.0, thio_p=0.0):
+def rnd_mol(rng, n, aromatic_p=0.3, charged_p=0.1, pyrrole_p=0.0, biaryl_p=0.0, thio_p=0.0, hetero_p=0.0):
     """valence-respecting random molecule over the organic subset.
     nodes: element, charge, aromatic, h (hydrogens required); edges: order (1,2,3, 1.5 in aromatic rings)"""
     g = nx.Graph()
@@ -82,6 +82,8 @@ def rnd_mol(rng, n, aromatic_p=0.3, charged_p=0.1, pyrrole_p=0.0, biaryl_p=0.0, 
             break
         a = rng.choice(cands)
         el = rng.choice(['C', 'C', 'C', 'C', 'N', 'O', 'S', 'F', 'Cl', 'Br', 'P'])
+        if hetero_p and rng.random() < hetero_p:
+            el = rng.choice(['N', 'O'])     # (second stream draw only when asked for: other callers keep their cases)
         ch = 0
         if rng.random() < charged_p and el in 'NO':
             ch = 1 if el == 'N' else -1
@@ -400,10 +402,11 @@ def graph_to_json(g):
 
 
 def cut_case(rng, nmin=3, nmax=12, share_p=0.0, virtual=0, aromatic_p=0.25, label_p=1.0,
-             kinds=('$', '><'), anno_p=0.0, pyrrole_p=0.0, biaryl_p=0.0, kekule_p=0.0, thio_p=0.0):
+             kinds=('$', '><'), anno_p=0.0, pyrrole_p=0.0, biaryl_p=0.0, kekule_p=0.0, thio_p=0.0, charged_p=0.1, hetero_p=0.0):
     """one C01-style case: a molecule, the uncut description and a cut description"""
     while True:
-        g = rnd_mol(rng, rng.randint(nmin, nmax), aromatic_p=aromatic_p, pyrrole_p=pyrrole_p, biaryl_p=biaryl_p, thio_p=thio_p)
+        g = rnd_mol(rng, rng.randint(nmin, nmax), aromatic_p=aromatic_p, pyrrole_p=pyrrole_p, biaryl_p=biaryl_p, thio_p=thio_p,
+                    charged_p=charged_p, hetero_p=hetero_p)
         kekule = False
         if kekule_p and rng.random() < kekule_p and not biaryl_p and not share_p:
             ring = [n for n, d in g.nodes(data=True) if d['aromatic'] and any('kek' in g.edges[n, m] for m in g[n])]
